@@ -3,9 +3,7 @@
 use super::der;
 use openssl::asn1::{Asn1Integer, Asn1Time};
 use openssl::bn::BigNum;
-use openssl::ec::{EcGroup, EcKey};
 use openssl::hash::MessageDigest;
-use openssl::nid::Nid;
 use openssl::pkey::{PKey, Private, Public};
 use openssl::x509::extension::{BasicConstraints, SubjectAlternativeName};
 use openssl::x509::{X509Builder, X509NameBuilder, X509Req, X509};
@@ -17,9 +15,15 @@ pub struct Hierarchy {
 	pub certs: Vec<X509>,
 }
 
-fn p256() -> PKey<Private> {
-	let g = EcGroup::from_curve_name(Nid::X9_62_PRIME256V1).unwrap();
-	PKey::from_ec_key(EcKey::generate(&g).unwrap()).unwrap()
+/// Hierarchy keys are Ed25519 keys derived from fixed bytes: Ed25519 signatures are deterministic
+/// and fixed-width, so every certificate the model CA serves has a length that depends only on
+/// the plan (ECDSA DER signatures vary by a byte or two between runs, which would make "is the new
+/// chain shorter than the old file" a coin flip and break replay).
+fn ed25519(i: u8) -> PKey<Private> {
+	let mut raw = [0x5Au8; 32];
+	raw[0] = i;
+	raw[31] = 0xC3 ^ i;
+	PKey::private_key_from_raw_bytes(&raw, openssl::pkey::Id::ED25519).unwrap()
 }
 
 fn name(cn: &str) -> openssl::x509::X509Name {
@@ -38,7 +42,7 @@ impl Hierarchy {
 		let mut keys = Vec::new();
 		let mut certs: Vec<X509> = Vec::new();
 		for i in 0..4 {
-			let key = p256();
+			let key = ed25519(i as u8);
 			let cn = if i == 0 { "Sim Root".to_string() } else { format!("Sim Intermediate {}", i) };
 			let mut b = X509Builder::new().unwrap();
 			b.set_version(2).unwrap();
@@ -54,7 +58,7 @@ impl Hierarchy {
 			b.set_not_after(&Asn1Time::from_unix(32_503_680_000).unwrap()).unwrap(); // year 3000
 			b.append_extension(BasicConstraints::new().critical().ca().build().unwrap()).unwrap();
 			let signer = if i == 0 { &key } else { &keys[i - 1] };
-			b.sign(signer, MessageDigest::sha256()).unwrap();
+			b.sign(signer, MessageDigest::null()).unwrap();
 			certs.push(b.build());
 			keys.push(key);
 		}
@@ -198,7 +202,7 @@ pub fn issue(
 			let ext = san.build(&b.x509v3_context(Some(&h.certs[issuer_idx]), None)).map_err(|e| e.to_string())?;
 			b.append_extension(ext).map_err(|e| e.to_string())?;
 		}
-		b.sign(&h.keys[issuer_idx], MessageDigest::sha256()).map_err(|e| e.to_string())?;
+		b.sign(&h.keys[issuer_idx], MessageDigest::null()).map_err(|e| e.to_string())?;
 		let leaf = b.build();
 		let mut pem = String::from_utf8(leaf.to_pem().map_err(|e| e.to_string())?).unwrap();
 		// chain: leaf, then issuer_idx, issuer_idx-1, ... down to (but excluding) the root, unless
